@@ -19,7 +19,7 @@ WORK = os.path.join(VERIF, ".work")
 MODEL_BIN = os.path.join(LEAN, ".lake", "build", "bin", "dirkmodel")
 
 GOENV = dict(os.environ, GOFLAGS="-mod=mod", GOPROXY="off", GOSUMDB="off", GOTOOLCHAIN="local",
-             CGO_ENABLED="1")
+             CGO_ENABLED="1", DH_WALLET_CACHE=os.path.join(VERIF, ".work", "wallet-cache"))
 
 ACCEPTED_AXIOMS = {"propext", "Classical.choice", "Quot.sound"}
 
